@@ -3,7 +3,7 @@
    Update/UpdateProofs.v), about the model that the correspondence run executes
    (Update/UpdateDefs.v: newfb_state, newfb_client, setdesktop_one, send_client). *)
 From LV Require Import Region.RegionDefs Region.RegionProofs Gen.Consts_C16 Update.UpdateDefs Update.UpdateFacts
-     Update.UpdateProofs0 Update.UpdateProofs Update.UpdateThms Update.NewFB Update.Trans Update.Life Update.StateLevel.
+     Update.UpdateProofs0 Update.UpdateProofs Update.UpdateThms Update.NewFB Update.Slices Update.Trans Update.Life Update.StateLevel Update.Audit02.
 Local Open Scope Z_scope.
 
 (* after rfbNewFramebuffer the invariant of C02 holds again, with everything marked modified,
@@ -100,13 +100,14 @@ Theorem C16_translation_current_run : forall ops st st',
   Inv st -> run_ok st ops -> TransOK st -> run st ops = Some st' -> TransOK st'.
 Proof. exact run_transok. Qed.
 
-(* delivered-pixel form: a client with nothing pending holds, at every pixel, the framebuffer pixel translated
+(* delivered-pixel form (for clients into whose pixels no cursor is painted: NoSoftCursor, see C02): a client
+   with nothing pending holds, at every pixel, the framebuffer pixel translated
    from the CURRENT server format to its own format *)
 Theorem C16_converged_in_current_format : forall st c,
-  Inv st -> TransOK st -> In c (sClients st) -> pending st c = false ->
+  Inv st -> TransOK st -> In c (sClients st) -> NoSoftCursor st c -> pending st c = false ->
   forall x y, inS (sW st) (sH st) x y ->
     pic_get (cPic c) x y = translate (sBpp st) (tTo (cBpp c)) (fbf st x y).
-Proof. exact idle_converged_current. Qed.
+Proof. exact idle_converged_current_nocursor. Qed.
 
 (* non-vacuity: 16 bpp with 4 bits per sample (code 2 + 8*4) and with 5 bits (code 2) are different formats of
    the same depth, and the translation between them is not the identity *)
